@@ -680,6 +680,20 @@ def rule_e(ctx: Context, R: Reporter, bmap: FuncInfo, pred: FuncInfo):
                 if bad:
                     problems.append((fi, e, f"{fi.short} replaces the index list by None under {[(unparse(a)[:30], p_) for (a, p_) in bad]} (not a test that the list is None or empty): "
                                             f"a valid list such as [0] loses its boundary condition", f"list-dropped:{fi.short}"))
+            if isinstance(e, ast.IfExp):
+                # `x if C else None`: the None branch must be an emptiness / None test of the list
+                out_ = []
+                for (br, pol) in ((e.body, True), (e.orelse, False)):
+                    if isinstance(br, ast.Constant) and br.value is None:
+                        facts = split_cond(e.test, pol)
+                        bad = [(a, p_) for (a, p_) in facts if not _emptiness_fact(a, p_) and is_none_test(a) is None]
+                        if bad:
+                            problems.append((fi, e, f"{fi.short} replaces the index list by None under {[(unparse(a)[:30], p_) for (a, p_) in bad]} (not a test that the list is None or empty): "
+                                                    f"a valid list such as [0] loses its boundary condition", f"list-dropped:{fi.short}"))
+                        out_.append(Origin("none", "None", fi, br, chain))
+                    else:
+                        out_ += self.origins(fi, br, at, chain, depth + 1, seen)
+                return out_
             if isinstance(e, ast.Call):
                 name = self.ctx.res.external_name(fi, e) or ""
                 if name in VALUE_PRESERVING and e.args:
@@ -813,6 +827,7 @@ def variants():
         Variant("d-reflect-parity-1", "bad", replace_expr(mc, f, "np.mod(n_reflect, 2.0) == 0", "np.mod(n_reflect, 2.0) == 1"), ["C16.d"]),
         Variant("d-reflect-no-flip", "bad", replace_expr(mc, f, "1.0 - remainder", "remainder"), ["C16.d"]),
         Variant("d-ceil", "bad", replace_expr(mc, f, "np.floor(val)", "np.ceil(val)"), ["C16.d"]),
+        Variant("e-index-list-truthiness", "bad", replace_stmt("tempest/steps/mutate.py", "Mutator.__init__", "self.periodic = periodic", "self.periodic = periodic if periodic is not None and np.any(periodic) else None"), ["C16.e"], quick=True),
         Variant("d-roundoff-guard-jump", "bad", replace_stmt(mc, f, "remainder = val - n_reflect", "remainder = val - n_reflect\nremainder = np.where(remainder >= 1.0, 0.0, remainder)"), ["C16.d"], quick=True),
         Variant("d-benign-dead-guard-same-limit", "benign", replace_stmt(mc, f, "remainder = val - n_reflect", "remainder = val - n_reflect\nremainder = np.where(remainder >= 1.0, 1.0, remainder)")),
         Variant("benign-remainder-mod1", "benign", replace_stmt(mc, f, "remainder = val - n_reflect", "remainder = val % 1.0"), quick=True),
